@@ -122,6 +122,14 @@ static std::string serialise(const ALib& L, bool cell_offset) {
     return o.s;
 }
 
+// oas_layout.hpp is shared with other checks and grows new input classes; a path flagged as "outline" (written through
+// to_polygons) is outside the model.  The flag is cleared when the generator has it (member detection, so that this file
+// compiles against either version of the header); the built FlexPaths are forced to simple_path below in any case.
+template <class T>
+static auto clear_outline(T& p, int) -> decltype(p.outline, void()) { p.outline = false; }
+template <class T>
+static void clear_outline(T&, long) {}
+
 // restrict a generated layout to the subset of the model and add the input classes the generator lacks
 static void restrict_layout(ALib& L, Rng& g, Out* out) {
     for (auto& c : L.cells) {
@@ -136,6 +144,7 @@ static void restrict_layout(ALib& L, Rng& g, Out* out) {
         }
         for (auto& p : c.paths) {
             p.robust = false;
+            clear_outline(p, 0);
             for (auto& e : p.els) e.width &= ~(int64_t)1;  // even width: the half width is on the grid
             if (g.chance(3)) p.pts.resize(1);                // EmptyPath: nothing is written
         }
@@ -205,6 +214,14 @@ static void run_case(Out& out, uint64_t ls, unsigned variant) {
         set_error_logger(NULL);
         Built b;
         build_library(L, b);
+        for (uint64_t ci = 0; ci < b.lib.cell_array.count; ci++) {  // the modelled subset: simple FlexPaths only
+            Cell* c = b.lib.cell_array[ci];
+            for (uint64_t k = 0; k < c->flexpath_array.count; k++) c->flexpath_array[k]->simple_path = true;
+            if (c->robustpath_array.count > 0) {
+                fputs("UNSUPPORTED-robustpath", o);
+                return;
+            }
+        }
         std::string f = g_outdir + "/w.oas";
         unlink(f.c_str());
         b.lib.write_oas(f.c_str(), 0.0, 0, (uint16_t)(cell_offset ? OASIS_CONFIG_PROPERTY_CELL_OFFSET : 0));
